@@ -39,6 +39,8 @@ struct Algebra {
     int mark[MAXG];
     int cellnode[2];   // node id published in cell c
     bool retired[64];
+    long clock;        // number of retirements so far: hazard eras advance their era clock exactly once per retirement
+    long era[MAXG];    // value of `clock` when guard i obtained its protection (guards with different eras cannot share a slot)
     int protecting() const {
       int n = 0;
       for (int i = 0; i < MAXG; i++) n += held[i] != 0;
@@ -85,11 +87,29 @@ struct Algebra {
           }
         };
         // expected outcome of an operation that turns guard `target` from empty into non-empty
-        auto expect = [&](int new_protecting) {
+        auto expect = [&](int new_protecting, int target = -1) {
           // returns: +1 must throw, 0 may throw, -1 must not throw
           if (Rule == SLOTS_NONE) return -1;
           if (new_protecting <= K) return -1;
-          return Rule == SLOTS_HP ? +1 : 0;
+          if (Rule == SLOTS_HP) return +1;
+          // hazard eras: guards of the same era may share a slot, guards of different eras cannot.  If the other
+          // guards already hold K distinct eras, none of which is the current one, all K slots are taken by them
+          // and a guard that needs protection in the current era MUST be refused (C18: "raises instead of
+          // proceeding unprotected"); otherwise sharing may or may not succeed.
+          if (target >= 0 && opt("he_must_throw", 1)) {
+            long eras[MAXG];
+            int ne = 0;
+            bool cur = false;
+            for (int j = 0; j < G; j++) {
+              if (j == target || md.held[j] == 0) continue;
+              if (md.era[j] == md.clock) cur = true;
+              bool dup = false;
+              for (int k = 0; k < ne; k++) dup |= eras[k] == md.era[j];
+              if (!dup) eras[ne++] = md.era[j];
+            }
+            if (ne >= K && !cur) return +1;
+          }
+          return 0;
         };
         auto guarded = [&](const char* what, int expectation, auto&& action, auto&& commit) {
           bool threw = false;
@@ -103,10 +123,39 @@ struct Algebra {
           if (!threw) commit();
           return threw;
         };
+        // after a refused acquire the guard may keep what it had (and then still protects it) or be empty
+        auto after_refusal = [&](int i) {
+          if (g[i]->get() == nullptr) md.held[i] = 0, md.mark[i] = 0;
+        };
         for (int i = 0; i < fill && i < G; i++) {
           g[i]->acquire(cells[0], std::memory_order_acquire);
           md.held[i] = md.cellnode[0];
           md.mark[i] = 0;
+          md.era[i] = md.clock;
+        }
+        if (opt("altfill", 0) && G >= 2) {
+          // guards 0 and 1 start on different nodes with different protection: guard 0 acquires cell 0, then the
+          // node of cell 1 is replaced (so that it is younger than guard 0's slot / era), then guard 1 acquires cell 1
+          g[0]->acquire(cells[0], std::memory_order_acquire);
+          md.held[0] = md.cellnode[0];
+          md.mark[0] = 0;
+          md.era[0] = md.clock;
+          for (int churn = 0; churn < 2; churn++) { // twice: the second node is constructed after a retirement (a later era)
+            Node* n = make();
+            nodes[n->id] = n;
+            GP t;
+            t.acquire(cells[1], std::memory_order_acquire);
+            int old = md.cellnode[1];
+            cells[1].store(MP(n, 1), std::memory_order_release);
+            md.cellnode[1] = n->id;
+            t.reclaim();
+            md.retired[old] = true;
+            md.clock++;
+          }
+          g[1]->acquire(cells[1], std::memory_order_acquire);
+          md.held[1] = md.cellnode[1];
+          md.mark[1] = 1;
+          md.era[1] = md.clock;
         }
         check_all("fill");
         for (int step = 0; step < D; step++) {
@@ -127,24 +176,27 @@ struct Algebra {
             case G_ACQUIRE: {
               int target = md.cellnode[c];
               int newp = md.protecting() + (md.held[i] == 0 ? 1 : 0);
-              bool threw = guarded(name, expect(newp), [&] { g[i]->acquire(cells[c], std::memory_order_acquire); },
+              bool threw = guarded(name, expect(newp, i), [&] { g[i]->acquire(cells[c], std::memory_order_acquire); },
                                    [&] {
                                      md.held[i] = target;
                                      md.mark[i] = c;
+                                     md.era[i] = md.clock;
                                    });
-              (void)threw;
+              if (threw) after_refusal(i);
               break;
             }
             case G_AIE_MATCH: {
               int target = md.cellnode[c];
               int newp = md.protecting() + (md.held[i] == 0 ? 1 : 0);
               bool ok = false;
-              guarded(name, expect(newp), [&] { ok = g[i]->acquire_if_equal(cells[c], MP(nodes[target], c), std::memory_order_acquire); },
-                      [&] {
-                        if (!ok) fail("ALGEBRA", "acquire_if_equal returned false although the cell holds the expected value");
-                        md.held[i] = target;
-                        md.mark[i] = c;
-                      });
+              if (guarded(name, expect(newp, i), [&] { ok = g[i]->acquire_if_equal(cells[c], MP(nodes[target], c), std::memory_order_acquire); },
+                          [&] {
+                            if (!ok) fail("ALGEBRA", "acquire_if_equal returned false although the cell holds the expected value");
+                            md.held[i] = target;
+                            md.mark[i] = c;
+                            md.era[i] = md.clock;
+                          }))
+                after_refusal(i);
               break;
             }
             case G_AIE_MISMATCH: {
@@ -167,11 +219,13 @@ struct Algebra {
               break;
             case G_COPY_ASSIGN: {
               int newp = md.protecting() + ((md.held[i] == 0 && md.held[j] != 0) ? 1 : 0);
-              guarded(name, expect(newp), [&] { *g[i] = *g[j]; },
-                      [&] {
-                        md.held[i] = md.held[j];
-                        md.mark[i] = md.mark[j];
-                      });
+              if (guarded(name, expect(newp), [&] { *g[i] = *g[j]; },
+                          [&] {
+                            md.held[i] = md.held[j];
+                            md.mark[i] = md.mark[j];
+                            md.era[i] = md.era[j];
+                          }))
+                after_refusal(i);
               break;
             }
             case G_MOVE_ASSIGN:
@@ -179,6 +233,7 @@ struct Algebra {
               if (i != j) {
                 md.held[i] = md.held[j];
                 md.mark[i] = md.mark[j];
+                md.era[i] = md.era[j];
                 md.held[j] = 0;
                 md.mark[j] = 0;
               }
@@ -187,6 +242,7 @@ struct Algebra {
               g[i]->swap(*g[j]);
               std::swap(md.held[i], md.held[j]);
               std::swap(md.mark[i], md.mark[j]);
+              std::swap(md.era[i], md.era[j]);
               break;
             case G_RECLAIM: {
               // protocol: retire only what this sequence has unlinked itself: if the node is still published, replace it first
@@ -201,6 +257,7 @@ struct Algebra {
                 }
               g[i]->reclaim();
               md.retired[id] = true;
+              md.clock++;
               md.held[i] = 0;
               md.mark[i] = 0;
               break;
@@ -231,12 +288,35 @@ struct Algebra {
                       [&] {
                         md.held[i] = target;
                         md.mark[i] = c;
+                        md.era[i] = md.clock;
                       });
               break;
             }
           }
           op_end();
           check_all(name);
+        }
+        // storm: unlink and retire whatever is published (each retirement scans: threshold 0); every node that a guard
+        // still refers to must survive, however the guard came by its protection
+        if (opt("storm", 1)) {
+          op_begin(G_REPLACE, 0, 0);
+          for (int cc = 0; cc < 2; cc++) {
+            try {
+              GP t;
+              t.acquire(cells[cc], std::memory_order_acquire);
+              Node* n = make();
+              nodes[n->id] = n;
+              int old = md.cellnode[cc];
+              cells[cc].store(MP(n, cc), std::memory_order_release);
+              md.cellnode[cc] = n->id;
+              t.reclaim();
+              md.retired[old] = true;
+              md.clock++;
+            } catch (const Exc&) {
+            }
+          }
+          op_end();
+          check_all("the final unlink-and-retire storm");
         }
         // N x (acquire, release) never exhausts the slots
         for (int i = 0; i < G; i++) g[i]->reset();
